@@ -20,6 +20,7 @@ func init() {
 			{"WALKBACK-KEEPS-LOWER", ruleWalkBackKeepsLower},
 			{"QUEUE-ONCE", ruleQueueOnce},
 			{"LINKED-DOC-COMMIT-ONCE", ruleLinkedDocCommitOnce},
+			{"FIELD-BLOCK-ONCE", ruleFieldBlockOnce},
 			{"NONCE", ruleNonce},
 			{"NO-RESURRECT", ruleNoResurrect},
 			{"DELETED-REDIRECT", ruleDeletedRedirect},
@@ -27,7 +28,7 @@ func init() {
 			{"COUNTER-MERGE", ruleCounterMerge},
 		},
 		Meta: eng.PropMeta{
-			Explanation: "Counter.Merge adds unconditionally, so exactly-once rests on the merge walk and on commit uniqueness. Decided: (WALK-PARTITION) the enqueue walk follows Heads only and all of them, the apply recursion Links only, and the first block load is preceded by the merged-head membership test; (WALK-STOP) the only way loadComposites returns success without queueing the block or recursing is the merged-head test — no other early exit can drop a commit; the walked-back merge target is a fresh value, never written through the caller's target; (NONCE) the nonce of a counter delta comes from crypto/rand exactly when the document's primary key exists and is the zero value otherwise; (NO-RESURRECT) DocComposite.Merge writes the live object marker only on the 'no marker present' edge and nothing overwrites the deleted marker; (DELETED-REDIRECT) value accesses happen after the deleted-marker redirect; (UNION-EXHAUSTIVE) every accessor of the CRDT union handles all variants and Clone copies every field of every delta (a dropped Nonce changes an encrypted block's bytes); (COUNTER-MERGE) the counter's new value is current + delta written back to the same key. (TARGET-HEIGHT) every write to mergeTarget.headHeight is a max-accumulation — the frontier test 'not in the target and at least as high as the target ⇒ not merged' is sound only for the maximum height; (WALKBACK-KEEPS-LOWER) walking the merge target back replaces only the target blocks above the incoming block by their parents and keeps the others (decided as a 2-cell table over the sign of head-height − incoming-height); (QUEUE-ONCE) the queueing sites of loadComposites or the applying loop of mergeComposites are guarded by a membership test on a set of cids, so a commit below a diamond of the incoming DAG is merged once. (LINKED-DOC-COMMIT-ONCE) a document commit linked from a collection commit (branchable collections) is merged through a walk against its own document's heads, not by plain recursion, so that it is applied once whichever of its two deliveries comes first.",
+			Explanation: "Counter.Merge adds unconditionally, so exactly-once rests on the merge walk and on commit uniqueness. Decided: (WALK-PARTITION) the enqueue walk follows Heads only and all of them, the apply recursion Links only, and the first block load is preceded by the merged-head membership test; (WALK-STOP) the only way loadComposites returns success without queueing the block or recursing is the merged-head test — no other early exit can drop a commit; the walked-back merge target is a fresh value, never written through the caller's target; (NONCE) the nonce of a counter delta comes from crypto/rand exactly when the document's primary key exists and is the zero value otherwise; (NO-RESURRECT) DocComposite.Merge writes the live object marker only on the 'no marker present' edge and nothing overwrites the deleted marker; (DELETED-REDIRECT) value accesses happen after the deleted-marker redirect; (UNION-EXHAUSTIVE) every accessor of the CRDT union handles all variants and Clone copies every field of every delta (a dropped Nonce changes an encrypted block's bytes); (COUNTER-MERGE) the counter's new value is current + delta written back to the same key. (TARGET-HEIGHT) every write to mergeTarget.headHeight is a max-accumulation — the frontier test 'not in the target and at least as high as the target ⇒ not merged' is sound only for the maximum height; (WALKBACK-KEEPS-LOWER) walking the merge target back replaces only the target blocks above the incoming block by their parents and keeps the others (decided as a 2-cell table over the sign of head-height − incoming-height); (QUEUE-ONCE) the queueing sites of loadComposites or the applying loop of mergeComposites are guarded by a membership test on a set of cids, so a commit below a diamond of the incoming DAG is merged once. (LINKED-DOC-COMMIT-ONCE) a document commit linked from a collection commit (branchable collections) is merged through a walk against its own document's heads, not by plain recursion, so that it is applied once whichever of its two deliveries comes first. (FIELD-BLOCK-ONCE) a field block linked from more than one composite is applied, and becomes a head, once: on the field-block path of processBlock the apply is preceded by a check of the field's heads for the block's own cid and is unreachable when it answers 'already merged'.",
 			NotDecided:  "sums and causal maxima over histories; prefix-wise (after every delivery) equality; a merge dropped after MaxTxnRetries conflicts (liveness)",
 		},
 	})
